@@ -145,6 +145,13 @@ func init() {
 	register("shutdown1", mkShutdown([]ActorSpec{{Name: "X", Ops: []Op{{Kind: "close"}}}}, false))
 	register("shutdown1lazy", mkShutdown([]ActorSpec{{Name: "X", Ops: []Op{{Kind: "close"}}}}, true))
 	register("shutdown2", mkShutdown([]ActorSpec{{Name: "X", Ops: []Op{{Kind: "disc"}}}, {Name: "Y", Ops: []Op{{Kind: "close"}}}}, false))
+	// Disconnect on its own: no Close comes to the rescue of a Disconnect that waits
+	// and no PauseTimeout ends a blocked dial or a withheld CONNACK either
+	register("shutdown4", func() *Scenario {
+		s := mkShutdown([]ActorSpec{{Name: "X", Ops: []Op{{Kind: "disc"}}}}, false)()
+		s.Config.PauseTimeout = 0
+		return s
+	})
 	register("shutdown3", mkShutdown([]ActorSpec{{Name: "X", Ops: []Op{{Kind: "disc", Quit: quitLater}}}, {Name: "Y", Ops: []Op{{Kind: "disc", Quit: quitClosed}}}, {Name: "Z", Ops: []Op{{Kind: "close"}}}}, true))
 }
 
